@@ -640,11 +640,28 @@ def _r5(ctx, m):
     h = pkg.method("ExampleCommand", "handle")
     ctx.saw(EXAMPLE, "ExampleCommand.handle")
     k2 = set()
+    # by role: every iteration (a `for` statement or a comprehension clause) over <table>.items() where <table> is the example
+    # module's ode_modifier (or a local alias of it); the string keys its VALUE variable is subscripted with, anywhere in that
+    # statement / comprehension
+    tables = {"ode_modifier"} | {t.id for n in ast.walk(h) if isinstance(n, ast.Assign) and isinstance(n.value, ast.Attribute) and n.value.attr == "ode_modifier"
+                                 for t in n.targets if isinstance(t, ast.Name)}
+
+    def _items_value(target, it):
+        if isinstance(it, ast.Call) and isinstance(it.func, ast.Attribute) and it.func.attr == "items" and not it.args and \
+                ((isinstance(it.func.value, ast.Name) and it.func.value.id in tables) or (isinstance(it.func.value, ast.Attribute) and it.func.value.attr == "ode_modifier")) \
+                and isinstance(target, (ast.Tuple, ast.List)) and len(target.elts) == 2 and isinstance(target.elts[1], ast.Name):
+            return target.elts[1].id
+        return None
     for n in ast.walk(h):
-        # by role: the loop over <table>.items() whose body zips two string-keyed fields of the value
-        if isinstance(n, ast.For) and isinstance(n.iter, ast.Call) and isinstance(n.iter.func, ast.Attribute) and n.iter.func.attr == "items" and \
-                any(isinstance(x, ast.For) and isinstance(x.iter, ast.Call) and ast.unparse(x.iter.func) == "zip" and _str_keys(x.iter) for x in ast.walk(n)):
-            k2 |= _str_keys(n)
+        scopes = []
+        if isinstance(n, ast.For):
+            scopes.append((_items_value(n.target, n.iter), n))
+        elif isinstance(n, (ast.ListComp, ast.GeneratorExp, ast.SetComp, ast.DictComp)):
+            scopes += [(_items_value(g.target, g.iter), n) for g in n.generators]
+        for var, scope in scopes:
+            if var is not None:
+                k2 |= {x.slice.value for x in ast.walk(scope) if isinstance(x, ast.Subscript) and isinstance(x.value, ast.Name) and x.value.id == var
+                       and isinstance(x.slice, ast.Constant) and isinstance(x.slice.value, str)}
     sets[(EXAMPLE, "ExampleCommand.handle (reader)")] = k2
     # writer: init.py
     from .c20 import _init_handle, _option_origins, _option_loops
